@@ -115,3 +115,65 @@ let run_connlock (parts : string list) : string =
     (if o.co_free && dn = total then "ok" else "BLOCKED") spec
 
 let () = register "connlock" run_connlock
+
+(* ---------- kind: aged (C14, round 3) ----------
+   case:   tr=<udp|tcp|tcpp|tls|tlsp|doh|doq> age=<ms> tick=<ms|0> n=<k>
+   result: res=<ALLR|FAIL> acc=<n> || spec=..
+   Stream upstreams: the extracted [dk_case] (Net/Deadline.v: the connection's deadlines as state, constants of the
+   code, time in tenths of a second) on the sequence of ages of the case.  udp is the pipelined user with the one
+   minute idle time-out NewUpstream pins; doh / doq connections belong to net/http / quic-go: only the property's
+   expectation (healthy server, age below the idle time-out => reply on the pooled connection). *)
+let run_aged (parts : string list) : string =
+  let f = fields parts in
+  let tr = fld f "tr" in
+  let age = ifld f "age" / 100 and tick = ifld f "tick" / 100 and n = ifld f "n" in
+  let ages =
+    (if tick > 0 then List.init (age / tick) (fun _ -> tick) else []) @
+    (if n > 0 then (if tick > 0 then age mod tick else age) :: List.init (n - 1) (fun _ -> 0) else []) in
+  let nat_ages = List.map nat_of_int ages in
+  let res = (match tr with
+    | "tcp" -> Some (dk_case DkTcp nat_ages) | "tcpp" -> Some (dk_case DkTcpP nat_ages)
+    | "tls" -> Some (dk_case DkTls nat_ages) | "tlsp" -> Some (dk_case DkTlsP nat_ages)
+    | "udp" -> Some (dk_session false (nat_of_int 30) (nat_of_int 600) (nat_of_int 60) DkTcpP nat_ages)
+    | _ -> None) in
+  match res with
+  | None -> "res=ALLR acc=0 || spec=ok"
+  | Some l ->
+    let later = List.tl l in
+    let allr = List.for_all (fun (ok, _) -> ok) later in
+    let dials = List.length (List.filter (fun (_, d) -> d) later) in
+    Printf.sprintf "res=%s acc=%d || spec=%s" (if allr then "ALLR" else "FAIL") dials
+      (if allr then "ok" else "FAIL:c14-aged-connection")
+
+let () = register "aged" run_aged
+
+(* ---------- kind: dup (C14, round 3) ----------
+   case:   tr=<udp|tcpp|tlsp> k=<copies> mode=<b2b|inter> conc=<n> after=<m> dl=<ms>
+   result: first=<REPLY|..> after=<R..> || spec=..
+   The extracted LTS of the pipelined connection (Net/Pipeline.v, [pl_history_outcomes]): a warm-up exchange, conc
+   exchanges whose replies arrive k times each in the order of the case, then the follow-ups (k copies each). *)
+let run_dup (parts : string list) : string =
+  let f = fields parts in
+  let tcp = (fld f "tr" <> "udp") in
+  let k = ifld f "k" and conc = ifld f "conc" and after = ifld f "after" in
+  let inter = (fld f "mode" = "inter") in
+  let tag = ref 0 in
+  let reply t = incr tag; PlEvReplyTo (n_of_int t, n_of_int !tag) in
+  let start t = PlEvStart (n_of_int (4096 + t)) in
+  let warm = [start 0; reply 0] in
+  let threads = List.init conc (fun i -> 1 + i) in
+  let starts = List.map start threads in
+  let replies =
+    if inter then List.concat (List.init k (fun _ -> List.map reply threads))
+    else List.concat (List.map (fun t -> List.init k (fun _ -> reply t)) threads) in
+  let follow = List.concat (List.init after (fun j -> let t = 1 + conc + j in start t :: List.init k (fun _ -> reply t))) in
+  let (outs, closed) = pl_history_outcomes tcp (n_of_int 0) (warm @ starts @ replies @ follow) in
+  let ok (o, _) = (match o with PlOMsg (_, true) -> true | _ -> false) in
+  let outs = Array.of_list outs in
+  let first_ok = List.for_all (fun t -> ok outs.(t)) threads in
+  let aft = String.concat "" (List.init after (fun j -> if ok outs.(1 + conc + j) then "R" else "E")) in
+  let good = first_ok && not closed && not (String.contains aft 'E') in
+  Printf.sprintf "first=%s after=%s when=early late=0 || spec=%s" (if first_ok then "REPLY" else "ERR")
+    (if after = 0 then "-" else aft) (if good then "ok" else "FAIL:c14-duplicate-replies")
+
+let () = register "dup" run_dup
